@@ -3,6 +3,8 @@ mod area_green;
 mod area_red;
 mod area_serde;
 mod area_text;
+mod conc;
+mod sched;
 mod reftree;
 mod area_intern;
 mod gen;
@@ -57,6 +59,15 @@ fn main() {
             });
             writeln!(f, "{}", dist).unwrap();
         }
+        Some("conc") => {
+            let what = args.get(2).expect("conc <what>");
+            let seed: u64 = arg(&args, "--seed").and_then(|s| s.parse().ok()).unwrap_or(0);
+            let tier = arg(&args, "--tier").unwrap_or_else(|| "quick".into());
+            let out = arg(&args, "--out").expect("--out DIR");
+            conc::run_conc(what, seed, &tier, &out);
+        }
+        Some("conc-debug") => conc::debug_one(),
+        Some("conc-debug2") => conc::debug_random(),
         Some("leakcheck") => {
             // run the session three times; after a warm-up the live byte count must not move
             let ops = args.get(2).expect("leakcheck <ops.txt>");
